@@ -175,6 +175,7 @@ def coq_case(ops, table):
 
 def impl_main(payload):
     import copy
+    import dill
     import warnings
     import numpy as np
     from bingo.symbolic_regression.agraph.agraph import AGraph
@@ -281,9 +282,13 @@ def impl_main(payload):
                 elif op[0] == "copy":
                     src = objs[op[1]]
                     srcv = wb(src)
-                    dup = copy.deepcopy(src) if t % 2 else src.copy()
+                    # three ways bingo duplicates an equation: copy() (variation), deepcopy (islands, archipelagos) and a pickle
+                    # round trip (what multi-process evaluation sends to and gets back from a worker, what a checkpoint stores)
+                    how = t % 3
+                    dup = src.copy() if how == 0 else (copy.deepcopy(src) if how == 1 else dill.loads(dill.dumps(src)))
                     objs.append(dup)
                     stats["copies"] += 1
+                    stats["pickle_round_trips"] = stats.get("pickle_round_trips", 0) + int(how == 2)
                     watch = [len(objs) - 1]
                     dv = wb(dup)
                     if dv != srcv:
@@ -414,7 +419,7 @@ def check(rep, proof):
         distinct_nontrivial=len({repr(h) for h in hists if len(h) > 6}),
         rule="random histories over up to 6 live AGraph objects (40% with CAS simplification): setter writes (of a new array, and of the very array object the equation already "
              "holds after the caller edited it), row writes through a freshly obtained mutable view, constant writes (after querying the count), all ten observers, the four raw string formats, fitness/age writes, "
-             "copy()/deepcopy of originals and of copies, and a closing phase writing to every object then reading all; after every "
+             "copy()/deepcopy/pickle round trip of originals and of copies, and a closing phase writing to every object then reading all; after every "
              "operation the white-box state of the touched objects is compared with the Coq model; oracle: each observation against "
              "a fresh AGraph(stack, flag, constants), all other objects unchanged by every operation, copy == source",
         samples=[hists[0][:8], hists[-1]],
